@@ -474,3 +474,87 @@ Qed.
 
 Lemma grants_once : forall v ops, NoDup (map fst (grants_run v init ops)).
 Proof. intros v ops. apply (grants_fresh_gen v ops init). Qed.
+
+(* ---------- at most one live token per profile (this is what makes "close removes THE session" exact) ---------- *)
+(* at most one live token per profile *)
+Definition uniq_live (st : wstate) : Prop :=
+  forall s1 s2, In s1 (sessions st) -> In s2 (sessions st) ->
+    live (now st) s1 = true -> live (now st) s2 = true -> s_user s1 = s_user s2 -> s_tok s1 = s_tok s2.
+
+Lemma refresh_src : forall ss t k s', In s' (refresh ss t k) ->
+  exists s, In s ss /\ s_tok s = s_tok s' /\ s_user s = s_user s' /\ (live t s' = true -> live t s = true).
+Proof.
+  intros ss t k s' H. unfold refresh in H. apply in_map_iff in H. destruct H as [s [Hs Hin]].
+  exists s. split; [exact Hin|].
+  destruct ((s_tok s =? k) && live t s) eqn:E; subst s'; cbn; auto.
+  apply andb_true_iff in E. destruct E as [_ E]. auto.
+Qed.
+
+Lemma uniq_refresh : forall st k,
+  uniq_live st -> uniq_live (upd_sessions st (refresh (sessions st) (now st) k)).
+Proof.
+  intros st k H s1 s2 H1 H2 L1 L2 Hu. cbn [sessions now upd_sessions] in *.
+  apply refresh_src in H1. apply refresh_src in H2.
+  destruct H1 as [a [Ha [Ta [Ua La]]]]. destruct H2 as [b [Hb [Tb [Ub Lb]]]].
+  rewrite <- Ta, <- Tb. apply H; auto. congruence.
+Qed.
+
+Lemma live_mono : forall t dt s, live (t + dt) s = true -> live t s = true.
+Proof.
+  intros t dt s H. unfold live in *. apply negb_true_iff in H. apply negb_true_iff.
+  apply N.ltb_ge in H. apply N.ltb_ge. lia.
+Qed.
+
+Lemma step_uniq : forall v st o, uniq_live st -> uniq_live (fst (step v st o)).
+Proof.
+  intros v st o H. destruct o as [u|u|i p ttl|i|dt|i t k]; cbn [step].
+  - destruct (existsb (N.eqb u) (profiles st)); exact H.
+  - destruct (negb (existsb (N.eqb u) (profiles st))); [exact H|].
+    destruct (store_get (stores st) u); [destruct (_ <? _)|]; exact H.
+  - destruct (nth_error (insts st) i) as [[u h]|]; [|exact H].
+    destruct (negb p); [exact H|]. destruct (user_live (sessions st) (now st) u) eqn:Hu; [exact H|].
+    intros s1 s2 H1 H2 L1 L2 Huu. cbn [fst sessions now] in *.
+    assert (Hno : forall s, In s (sessions st) -> live (now st) s = true -> s_user s = u -> False).
+    { intros s Hin Hl Hus.
+      assert (X : user_live (sessions st) (now st) u = true).
+      { apply existsb_exists. exists s. split; [exact Hin|]. rewrite Hus, N.eqb_refl, Hl. reflexivity. }
+      congruence. }
+    destruct H1 as [H1|H1]; destruct H2 as [H2|H2].
+    + subst. reflexivity.
+    + subst s1. cbn in Huu. exfalso. eapply Hno; eauto.
+    + subst s2. cbn in Huu. exfalso. eapply Hno; eauto.
+    + apply H; auto.
+  - destruct (nth_error (insts st) i) as [[u h]|]; [|exact H].
+    destruct (user_live _ _ _); [|exact H].
+    intros s1 s2 H1 H2 L1 L2 Huu. cbn [fst sessions now] in *.
+    unfold drop_user in H1, H2. apply filter_In in H1. apply filter_In in H2.
+    destruct H1, H2. apply H; auto.
+  - intros s1 s2 H1 H2 L1 L2 Huu. cbn [fst sessions now] in *.
+    apply live_mono in L1. apply live_mono in L2. apply H; auto.
+  - destruct (nth_error (insts st) i) as [[u h]|]; [|exact H].
+    destruct (match v with Fixed => foreign (sessions st) (now st) t u | AsIs => false end); [exact H|].
+    pose proof (uniq_refresh st t H) as HR.
+    destruct k.
+    5: { destruct (find_session _ _ _); [|exact H]. exact HR. }
+    all: destruct h; cbn [negb]; [|exact H]; destruct (find_session _ _ _); [|exact H]; cbn.
+    all: try (destruct (row_get _ _); cbn [fst]); exact HR.
+Qed.
+
+Lemma run_uniq : forall v ops st, uniq_live st -> uniq_live (fst (run v st ops)).
+Proof.
+  intros v ops. induction ops as [|o r IH]; intros st H; cbn; [exact H|].
+  pose proof (step_uniq v st o H) as Hs.
+  destruct (step v st o) as [s1 x]. cbn [fst] in Hs.
+  specialize (IH s1 Hs). destruct (run v s1 r) as [s2 xs]. exact IH.
+Qed.
+
+Lemma one_live_token : forall v ops u t1 t2,
+  live_own (fst (run v init ops)) t1 u = true -> live_own (fst (run v init ops)) t2 u = true -> t1 = t2.
+Proof.
+  intros v ops u t1 t2 H1 H2.
+  assert (HU : uniq_live (fst (run v init ops))).
+  { apply run_uniq. intros s1 s2 []. }
+  apply live_own_elim in H1. apply live_own_elim in H2.
+  destruct H1 as [a [Ha [Ta [Ua La]]]]. destruct H2 as [b [Hb [Tb [Ub Lb]]]].
+  rewrite <- Ta, <- Tb. apply HU; auto. congruence.
+Qed.
